@@ -1,6 +1,7 @@
 import Model.Common.Proto
 import Model.Common.HashProto
 import Model.C10.Engine
+import Model.C10.Bip322
 import Generated.Spend
 open Btc Btc.Sighash Btc.Spend
 
@@ -16,6 +17,8 @@ ops
   sigmsg <spk> <redeem> <wscript> <leafhash> <ht> <i> <tx> <outs>   the digest the signer signs (C09 spec digests)
   verify <flags> <i> <tx> <outs>                                    `Core.verifyScript` with the composed checker
   verdict <flags> <i> <tx> <outs>                                   the same, `ok` / `rej` only
+  bip322 <flags> <msg> <spk> <scriptSig> <wit/…|.>                  `bip322.to_spend` / `to_sign` txids (wire order) and the
+                                                                    engine run of `assert_as_valid` on a simple signature
 answers: `ok …` / `err value` / `err <ScriptError>` / `none`
 -/
 
@@ -99,6 +102,14 @@ def handleC10 : List String → Option String
     pure <| match verifyInput crypto flags tx outs i (wits.getD i []) with
       | .ok _ => "ok"
       | .error _ => "rej"
+  | ["bip322", flags, msg, spk, ss, wit] => do
+    let flags ← flags.toNat?; let msg ← fromHex? msg; let spk ← fromHex? spk; let ss ← fromHex? ss
+    let wit ← listTok "/" fromHex? wit
+    let spend := Bip322.toSpend taggedHash msg spk
+    let v := match Bip322.verifySimple crypto flags msg spk ss wit with
+      | .ok _ => "ok"
+      | .error _ => "rej"
+    pure s!"ok {toHex (Bip322.txidWire hash256 spend)} {toHex (Bip322.txidWire hash256 (Bip322.toSign hash256 spend ss))} {v}"
   | _ => none
 
 def handle (toks : List String) : String :=
